@@ -316,13 +316,17 @@ def h_generated_multi(mode, cram):
     written), runs of the others are written anew.  Each line is one symbolic letter + 'x'; the last line has a final newline or not."""
     from mir_exec import find_method as fm
 
-    def mk(pattern, nl):
+    def mk(pattern, nl, kindlike=False):
         def setup(ctx):
             lines = []
+            ctx.notes["kindlike"] = kindlike
             for j in range(len(pattern)):
                 ch = ctx.sym_char("c%d" % j, 1)
                 ctx.add(z3.Or(ch.z() == ord("a"), ch.z() == ord("b")))
                 content = [ch, SInt(ord("x"), "char")]
+                if kindlike and pattern[j] == "M":
+                    # a still-matching line that looks like it ends in a kind: its expectation is written with an explicit ` (equal)`
+                    content = [ch] + [SInt(ord(c_), "char") for c_ in " (glob)"]
                 body = []
                 for c_ in content:
                     body += utf8_bytes(ctx, c_)
@@ -349,6 +353,8 @@ def h_generated_multi(mode, cram):
             if pattern[j] == "M":
                 # the existing expectation of a line that still matches: the text an earlier `create` wrote for it
                 text = list(lines[j]["content"]) + ([] if lines[j]["eol"] else [SInt(ord(c), "char") for c in " (no-eol)"])
+                if ctx.notes.get("kindlike"):
+                    text = list(lines[j]["content"]) + [SInt(ord(c), "char") for c in " (equal)"]
                 r = ctx.call(parse, [new_ref(maker), Str(text)])
                 if r.variant != "Ok":
                     raise Unsupported("existing expectation does not parse")
@@ -423,6 +429,8 @@ def h_generated_multi(mode, cram):
                 continue
             for nl in (True, False):
                 inputs.append(("lines=%s final-newline=%s" % ("".join(pattern), nl), mk("".join(pattern), nl)))
+            if n == 2 and "M" in pattern:
+                inputs.append(("lines=%s final-newline=True, the matching line `· (glob)` expected as `· (glob) (equal)`" % "".join(pattern), mk("".join(pattern), True, True)))
     h = e2.Harness("updated_test_passes_multiline_%s_%s" % ("cram" if cram else "markdown", mode.lower()), drive_multi, inputs, post2,
                    native=None, judge=None,
                    describe="update of a failing test with 2–3 output lines, some still matching their old expectation: the written block parses back "
@@ -650,7 +658,7 @@ def run(pid, tier):
                 lines, pattern = r.ctx.notes["lines"], r.ctx.notes["pattern"]
                 texts = ["".join(chr(e2.model_int(model, c)) for c in ln["content"]) for ln in lines]
                 out = "".join(t + ("\n" if ln["eol"] else "") for t, ln in zip(texts, lines)).encode()
-                existing = [t + ("" if ln["eol"] else " (no-eol)") for t, ln, p_ in zip(texts, lines, pattern) if p_ == "M"]
+                existing = [t + ((" (equal)" if r.ctx.notes.get("kindlike") else "") if ln["eol"] else " (no-eol)") for t, ln, p_ in zip(texts, lines, pattern) if p_ == "M"]
                 nk, nv = NAT.call("generate_and_validate", [list(out), mode.lower(), "cram" if cram else "markdown", existing])
                 if nk != "return" or nv.get("passes") is not True:
                     rep.violation("updated-test-fails:%s:multiline-%s" % ("cram" if cram else "markdown", "no-final-newline" if not lines[-1]["eol"] else "final-newline"),
